@@ -25,6 +25,7 @@ time is virtual.
 """
 
 import errno
+import io
 import collections
 import threading as _real_threading
 import queue as _real_queue
@@ -332,6 +333,9 @@ class ShimQueue:
                 raise _real_queue.Full
         self._push(item)
         self.unfinished_tasks += 1
+        st = s.me()
+        if st is not None:
+            st.flags.add('has-put')
         if len(self._items) > self.stats['max_len']:
             self.stats['max_len'] = len(self._items)
         s.yield_point('q.put:ret')
@@ -428,10 +432,102 @@ class _ModuleShim:
 
 
 class Request:
-    "One connection of a sender to the stub server"
+    """
+    One connection of a sender to the stub server.  handle(server, request)
+    is what the server's handler thread does with the connection; whatever
+    it writes to the connection (StubSocket) is collected in response, and
+    responded becomes true with the last byte of a complete HTTP response.
+    """
 
-    def __init__(self):
+    def __init__(self, handle=None, data=b'', peer=('127.0.0.1', 50000)):
         self.state = 'queued'   # queued | accepted | dropped | done
+        self.handle = handle
+        self.data = data        # the bytes the sender transmits
+        self.peer = peer
+        self.response = b''     # the bytes the handler has written so far
+        self.responded = False  # a complete HTTP response has been written
+        self.error = None       # Exception that ended the handler
+        self.thread = None      # TState of the handler thread
+        self.writes = 0
+        self.on_responded = None    # called in the handler thread, once
+
+    def _response_complete(self):
+        head, sep, body = self.response.partition(b'\r\n\r\n')
+        if not sep:
+            return False
+        for line in head.split(b'\r\n')[1:]:
+            name, _, value = line.partition(b':')
+            if name.strip().lower() == b'content-length':
+                try:
+                    return len(body) >= int(value.strip())
+                except ValueError:
+                    return False
+        # no Content-Length: the response ends when the connection is closed
+        return False
+
+
+class StubSocket:
+    """
+    The connection socket a request handler (socketserver.
+    StreamRequestHandler) gets: the request bytes are all there (rfile never
+    blocks), every write to the connection is an atomic operation with a
+    scheduling point before and after it.  The write that completes the HTTP
+    response (header block plus Content-Length bytes) is the point from which
+    the sender has its answer - the handler thread is still in the middle of
+    its code then.
+    """
+
+    def __init__(self, sched, req):
+        self._s = sched
+        self._req = req
+        self.closed = False
+
+    def makefile(self, mode='r', buffering=None, **_kw):
+        if 'r' not in mode:
+            raise SchedulerError('StubSocket.makefile(%r): only the read '
+                                 'side is a file' % (mode,))
+        return io.BytesIO(self._req.data)
+
+    def sendall(self, data, flags=0):
+        s = self._s
+        req = self._req
+        s.yield_point('sock.send')
+        if self.closed:
+            raise OSError(errno.EBADF, 'Bad file descriptor')
+        req.response += bytes(data)
+        req.writes += 1
+        first = False
+        if not req.responded and req._response_complete():
+            req.responded = True
+            first = True
+            st = s.me()
+            if st is not None:
+                st.flags.add('responded')
+        s.yield_point('sock.send:ret')
+        if first and req.on_responded is not None:
+            req.on_responded()
+
+    def send(self, data, flags=0):
+        self.sendall(data, flags)
+        return len(data)
+
+    def settimeout(self, timeout):
+        pass
+
+    def setsockopt(self, *args):
+        pass
+
+    def getpeername(self):
+        return self._req.peer
+
+    def fileno(self):
+        return -1
+
+    def shutdown(self, how):
+        pass
+
+    def close(self):
+        self.closed = True
 
 
 class StubServer:
@@ -497,11 +593,32 @@ class StubServer:
                     # ThreadingMixIn.process_request / _Threads.append
                     if self.block_on_close and not self.daemon_threads:
                         self.tracked.append(req)
+                    # ... / Thread(target=process_request_thread).start()
+                    self._net.nhandlers += 1
+                    req.thread = s.spawn(
+                        lambda req=req: self._process_request_thread(req),
+                        'RequestHandler%d' % self._net.nhandlers, 'handler')
                     s.yield_point('srv.accepted')
         finally:
             self._shutdown_request = False
             self._is_shut_down = True
             self.serving = False
+
+    def _process_request_thread(self, req):
+        """
+        socketserver.ThreadingMixIn.process_request_thread: run the handler;
+        an Exception it raises is reported by handle_error() (kept in
+        req.error here) and the connection is closed in either case.
+        """
+        self._s.yield_point('handler.start')
+        try:
+            req.handle(self, req)
+        except SchedulerError:
+            raise
+        except Exception as exc:  # pylint: disable=broad-except
+            req.error = exc
+        finally:
+            req.state = 'done'
 
     def shutdown(self):
         s = self._s
@@ -532,33 +649,53 @@ class Net:
         self.bound = {}
         self.servers = []
         self.time_wait = set()  # ports that have served a connection
+        self.nhandlers = 0      # handler threads started so far
 
     def handlers_running(self):
         return sum(srv.handlers_running() for srv in self.servers)
 
 
-def client_request(sched, net, port, handle):
+def client_request(sched, net, port, handle, data=b'',
+                   peer=('127.0.0.1', 50000), prepare=None):
     """
     What one HTTP request of a sender amounts to: connect (fails if nothing
-    listens), wait to be accepted (or dropped when the server closes), then
-    run handle(server) in the role of the server's handler thread.  Returns
-    ('noconn', None) or ('handled', result of handle).
+    listens), wait to be accepted (or dropped when the server closes); the
+    server then runs handle(server, request) in a handler thread of its own
+    (as socketserver.ThreadingMixIn does), and the sender waits until a
+    complete response has been written to the connection or the connection
+    was closed (handler ended).  The sender goes on from there while the
+    handler thread may still be running.  Returns ('noconn', None) or
+    ('handled', request).
     """
     sched.yield_point('cli.connect')
     srv = net.bound.get(port)
     if srv is None:
         return ('noconn', None)
-    req = Request()
+    req = Request(handle, data, peer)
+    if prepare is not None:
+        prepare(req)
     srv.backlog.append(req)
     sched.block(lambda: req.state != 'queued', None, 'cli.wait-accept')
     if req.state == 'dropped':
         return ('noconn', None)
-    try:
-        result = handle(srv)
-    finally:
-        req.state = 'done'
+    sched.block(lambda: req.responded or req.state == 'done', None,
+                'cli.wait-response')
     sched.yield_point('cli.response')
-    return ('handled', result)
+    return ('handled', req)
+
+
+def run_handler(server, req):
+    """
+    What socketserver does with an accepted connection in the handler
+    thread: instantiate the handler class given to make_server() - the
+    constructor runs setup(), handle() (for http.server: parse the request,
+    dispatch to do_POST() etc.) and finish().
+    """
+    sock = StubSocket(server._s, req)  # pylint: disable=protected-access
+    try:
+        server.handler(sock, req.peer, server)
+    finally:
+        sock.close()
 
 
 _CURRENT = [None]
